@@ -91,7 +91,7 @@ fn draw_case(ctx: &Ctx, rng: &mut Rng, n: usize, big_recipient: bool, tiny: bool
 	if rng.chance(1, 2) {
 		let mut tl = vec![]; let mut t = 65537 + 2 * rng.below(1000);
 		for _ in 0..rng.range(1, 3) { let l = rng.below(tlv_max) as usize; tl.push((t, rng.bytes(l))); t += 2 * rng.range(1, 1 << 20); if rng.chance(1, 4) { t = (1u64 << 33) + 1 + 2 * rng.below(1 << 20) + t; } }
-		rof = rof.with_custom_tlvs(RecipientCustomTlvs::new(tl).unwrap());
+		if let Ok(ct) = RecipientCustomTlvs::new(tl) { rof = rof.with_custom_tlvs(ct); }
 	}
 	let (keysend, hash) = if keysend_kind <= 1 { let p = rng.bytes32(); (Some(PaymentPreimage(p)), PaymentHash(Sha256::hash(&p).to_byte_array())) } else { (None, PaymentHash(rng.bytes32())) };
 	let mut sk = rng.bytes32(); sk[0] &= 0x7f; if sk == [0; 32] { sk[31] = 1; }
